@@ -204,6 +204,9 @@ func (vc *VC) callMods(caller *ssa.Function, call ssa.CallInstruction, ms *modSe
 	}
 	if c.IsInvoke() {
 		key := vc.E.ifaceMethodKey(c)
+		if rk := roleKey(key, c.Value); rk != "" && vc.E.DB.Contracts[rk] != nil {
+			key = rk
+		}
 		if ct := vc.E.DB.Contracts[key]; ct != nil {
 			vc.contractMods(ct, ms)
 			return
